@@ -1,6 +1,7 @@
 package props
 
 import (
+	"fmt"
 	"sort"
 
 	"github.com/zerx-lab/wordZero/pkg/document"
@@ -97,7 +98,29 @@ func (c13) Gen(r *sim.Rand, c *sim.Case, tier string) {
 		g2 := world.NewGen(r.Fork())
 		g2.Extra = true
 		g2.Fam = world.FBody | world.FList | world.FNote
-		ops = interleave(r, ops, sprinkleSaves(r, g2.DocOps(1, r.Range(2, 8)), 1, 5, 0.2, 0))
+		other := sprinkleSaves(r, g2.DocOps(1, r.Range(2, 8)), 1, 5, 0.2, 0)
+		if r.Bool() {
+			// the other document drops a predefined style it does not use, before it has added any; this document uses that style
+			x := sim.Str(r.Pick("Quote", "Subtitle", "Title", "CodeBlock", "ListParagraph"))
+			other = append([]sim.Op{{K: "style.rm", D: 1, S: []sim.Str{x}}}, other...)
+			ops = append([]sim.Op{{K: "para", S: []sim.Str{"uses a predefined style"}}, {K: "p.style", I: []int{0}, S: []sim.Str{x}}}, ops...)
+		}
+		ops = interleave(r, ops, other)
+	}
+	if !fromForeign && r.Chance(0.1) {
+		// hand-over of list kinds between a reopened document and another one: this document has lists, is saved and reopened (its
+		// numbering part now comes from the file), another document is the first to use a further kind, then this one uses that kind
+		kinds := []string{"bullet", "number", "decimal", "lowerLetter", "upperLetter", "lowerRoman", "upperRoman"}
+		p := r.Perm(len(kinds))
+		li := func(d int, k string, lvl int) sim.Op {
+			return sim.Op{K: "li", D: d, S: []sim.Str{sim.Str(fmt.Sprintf("item %s %d", k, d)), sim.Str(k), "•"}, I: []int{1, lvl, 0}}
+		}
+		ho := []sim.Op{li(0, kinds[p[0]], 0), {K: "restart", I: []int{r.Intn(2), r.Intn(3)}}, li(1, kinds[p[1]], 0), li(0, kinds[p[1]], 0)}
+		if r.Bool() {
+			ho = append(ho, li(1, kinds[p[2]], 1), sim.Op{K: "save", D: 1, I: []int{r.Intn(2)}}, li(0, kinds[p[2]], 1))
+		}
+		ho = append(ho, sim.Op{K: "save", I: []int{r.Intn(2)}}, sim.Op{K: "restart", I: []int{r.Intn(2), r.Intn(3)}}, li(0, kinds[p[0]], 0), li(0, kinds[p[1]], 0), sim.Op{K: "save", I: []int{r.Intn(2)}})
+		ops = append(ops, ho...)
 	}
 	c.Tasks = [][]sim.Op{append(pre, ops...)}
 	c.Order = orderPolicy(r)
